@@ -18,6 +18,10 @@ _real_io_open = io.open
 _real_scandir = os.scandir
 _real_listdir = os.listdir
 _real_stat = os.stat
+_real_lstat = os.lstat
+_real_fstat = os.fstat
+
+EPOCH = 1_700_000_000     # simulated file timestamps: EPOCH + simulated seconds at the last write (no real clock is ever visible)
 
 
 class SimCancelled(BaseException):
@@ -38,6 +42,41 @@ class Seams:
         self.stats = {"opens": 0, "opens_write": 0, "scandirs": 0, "scandir_permuted": 0,
                       "shadow_stat_hits": 0, "shadow_stat_hit_names": {}}
         self.installed = False
+        self.now = 0                # simulated clock in whole seconds; advances only when the scenario says so (op["tick"])
+        self.mtimes = {}            # relpath -> simulated time of the last write (files) / of the last entry creation (directories)
+
+    # -- simulated file timestamps ---------------------------------------------
+    def advance(self, dt):
+        if dt:
+            self.now += int(dt)
+            self.stats["clock_advanced"] = self.stats.get("clock_advanced", 0) + 1
+
+    def touch(self, relp, created):
+        self.mtimes[relp] = self.now
+        if created:
+            self.mtimes[os.path.dirname(relp) or "<ROOT>"] = self.now
+
+    def _retime(self, r, path):
+        """replace the three timestamps of a stat result of a sandbox entry by simulated ones"""
+        if getattr(self.ctx, "in_seam", False):
+            return r
+        self.ctx.in_seam = True
+        try:
+            if isinstance(path, int):
+                path = os.readlink(f"/proc/self/fd/{path}")
+            relp = self.rel(path)
+            if relp.startswith("<") and relp != "<ROOT>":
+                return r
+            t = EPOCH + self.mtimes.get(relp, 0)
+            cls, (tup, d) = r.__reduce__()
+            tup = tup[:7] + (t, t, t)
+            d = dict(d, st_atime=float(t), st_mtime=float(t), st_ctime=float(t), st_atime_ns=t * 10 ** 9, st_mtime_ns=t * 10 ** 9, st_ctime_ns=t * 10 ** 9)
+            self.stats["stat_retimed"] = self.stats.get("stat_retimed", 0) + 1
+            return cls(tup, d)
+        except Exception:
+            return r
+        finally:
+            self.ctx.in_seam = False
 
     # -- context ------------------------------------------------------------
     def begin_op(self, client, op_index, attempt, faults):
@@ -111,6 +150,7 @@ class Seams:
         if writing:
             self.stats["opens_write"] += 1
             c.writes.append(relp)
+            self.touch(relp, created=not os.path.lexists(file))
         else:
             c.reads.append(relp)
         if fired == "open-fail":
@@ -159,7 +199,22 @@ class Seams:
                     d[p] = d.get(p, 0) + 1
         except Exception:
             pass
-        return _real_stat(path, *a, **k)
+        r = _real_stat(path, *a, **k)
+        if getattr(self.ctx, "client", None) is not None:
+            return self._retime(r, path)
+        return r
+
+    def _lstat(self, path, *a, **k):
+        r = _real_lstat(path, *a, **k)
+        if getattr(self.ctx, "client", None) is not None:
+            return self._retime(r, path)
+        return r
+
+    def _fstat(self, fd):
+        r = _real_fstat(fd)
+        if getattr(self.ctx, "client", None) is not None:
+            return self._retime(r, fd)
+        return r
 
     # -- install / uninstall ---------------------------------------------------
     def install(self):
@@ -173,6 +228,8 @@ class Seams:
         os.scandir = self._scandir
         os.listdir = self._listdir
         os.stat = self._stat
+        os.lstat = self._lstat
+        os.fstat = self._fstat
         self.installed = True
 
     def uninstall(self):
@@ -181,6 +238,8 @@ class Seams:
         os.scandir = _real_scandir
         os.listdir = _real_listdir
         os.stat = _real_stat
+        os.lstat = _real_lstat
+        os.fstat = _real_fstat
         self.installed = False
 
     def event_digest(self):
